@@ -180,11 +180,16 @@ func genHistory(seed uint64, idx int, tr tiers) Data {
 	ncode := r.Weighted([]int{0, 5, 3, 2})
 	for i := 0; i < ncode; i++ {
 		var it poolItem
-		switch r.Weighted([]int{5, 3, 3}) {
+		switch r.Weighted([]int{5, 3, 3, 2}) {
 		case 0:
 			it = pl[r.Intn(len(mutators))]
 		case 1:
 			it = pl[r.Intn(len(pl))]
+		case 3:
+			it = pl[r.Intn(len(pl))]
+			if m := workload.MutateProgram(r, it.p.Src); workload.Deterministic(m) {
+				it.p.Src = m
+			}
 		default:
 			src, in := g.Program()
 			it = poolItem{ProgSpec{Src: src}, in}
